@@ -50,5 +50,51 @@ pub broadcast axiom fn axiom_display_str(s: &str, r: String)
     requires #[trigger] vstd::string::to_string_from_display_ensures::<str>(s, r),
     ensures r@ == s@;
 
+// T8 (rule D6). format!("lit{a}lit{b}") with bare placeholders is the concatenation of the Display renderings;
+// Display of usize is its decimal numeral: digits only, injective.
+pub open spec fn concat_all(parts: Seq<String>) -> Seq<char>
+    decreases parts.len(),
+{
+    if parts.len() == 0 { Seq::empty() } else { concat_all(parts.drop_last()) + parts.last()@ }
+}
+#[verifier::external_body]
+pub fn fmt_concat(parts: Vec<String>) -> (r: String)
+    ensures
+        r@ == concat_all(parts@),
+        // unfolded for short lists (consequences of the first clause: lemma_concat_unfold)
+        parts@.len() == 2 ==> r@ == parts@[0]@ + parts@[1]@,
+        parts@.len() == 3 ==> r@ == parts@[0]@ + parts@[1]@ + parts@[2]@,
+        parts@.len() == 4 ==> r@ == parts@[0]@ + parts@[1]@ + parts@[2]@ + parts@[3]@,
+        parts@.len() == 5 ==> r@ == parts@[0]@ + parts@[1]@ + parts@[2]@ + parts@[3]@ + parts@[4]@,
+{ unimplemented!() }
+pub proof fn lemma_concat_unfold(p: Seq<String>)
+    ensures
+        p.len() == 2 ==> concat_all(p) == p[0]@ + p[1]@,
+        p.len() == 3 ==> concat_all(p) == p[0]@ + p[1]@ + p[2]@,
+        p.len() == 4 ==> concat_all(p) == p[0]@ + p[1]@ + p[2]@ + p[3]@,
+        p.len() == 5 ==> concat_all(p) == p[0]@ + p[1]@ + p[2]@ + p[3]@ + p[4]@,
+{
+    reveal_with_fuel(concat_all, 6);
+    if p.len() >= 1 {
+        assert(concat_all(p.take(1)) =~= p[0]@) by { assert(p.take(1).drop_last() =~= Seq::<String>::empty()); }
+    }
+    if p.len() >= 2 { assert(p.take(2).drop_last() =~= p.take(1)); assert(p.take(2).last() == p[1]); }
+    if p.len() >= 3 { assert(p.take(3).drop_last() =~= p.take(2)); assert(p.take(3).last() == p[2]); }
+    if p.len() >= 4 { assert(p.take(4).drop_last() =~= p.take(3)); assert(p.take(4).last() == p[3]); }
+    if p.len() >= 5 { assert(p.take(5).drop_last() =~= p.take(4)); assert(p.take(5).last() == p[4]); }
+    assert(p.take(p.len() as int) =~= p);
+}
+pub uninterp spec fn decimal(n: nat) -> Seq<char>;
+pub open spec fn is_digit(c: char) -> bool { '0' <= c && c <= '9' }
+pub broadcast axiom fn axiom_display_usize(n: &usize, r: String)
+    requires #[trigger] vstd::string::to_string_from_display_ensures::<usize>(n, r),
+    ensures r@ == decimal(*n as nat);
+pub broadcast axiom fn axiom_decimal_digits(n: nat, i: int)
+    requires 0 <= i < decimal(n).len(),
+    ensures is_digit(#[trigger] decimal(n)[i]), decimal(n).len() > 0;
+pub broadcast axiom fn axiom_decimal_injective(a: nat, b: nat)
+    requires #[trigger] decimal(a) == #[trigger] decimal(b),
+    ensures a == b;
+
 } // mod tb
 pub use tb::*;
